@@ -270,12 +270,13 @@ func C02(run *report.Run) {
 	} else {
 		all := []string{"clone", "root+load", "root+loadnc", "cursor", "clone-of-clone", "root+load-twice", "root+coldload-twice"}
 		plans = []c02Plan{
-			{world.UintCfg(2, urange(1, 5), 1, B, "big"), all, 3, true, 0},
+			{world.UintCfg(2, urange(1, 5), 1, B, "big"), []string{"clone", "root+load"}, 3, true, 0},
+			{world.UintCfg(2, urange(1, 5), 1, B, "big"), all[2:], 2, true, 0},
 			{world.UintCfg(2, urange(1, 5), 2, B, "big"), all, 2, true, 0},
 			{world.UintCfg(2, urange(1, 5), 2, M, "none"), all[:5], 2, true, 0},
 			{world.UintCfg(2, urange(1, 5), 1, M, "big"), all, 2, true, 0},
-			{world.UintCfg(2, urange(1, 4), 2, B, "tiny1"), all, 3, true, 0},
-			{world.UintCfg(2, urange(1, 4), 2, B, "tiny2"), all, 3, true, 0},
+			{world.UintCfg(2, urange(1, 4), 2, B, "tiny1"), all, 2, true, 0},
+			{world.UintCfg(2, urange(1, 4), 1, B, "tiny2"), []string{"clone", "root+load", "root+coldload-twice"}, 3, true, 0},
 			{world.UintCfg(3, ulist(1, 2, 3, 4, 6, 9), 1, B, "big"), all, 2, true, 0},
 			{deep(B, "big"), []string{"root+load", "clone", "root+load-twice"}, 2, true, 1},
 			{deep(M, "tiny2"), []string{"root+load", "clone"}, 2, true, 1},
